@@ -266,6 +266,11 @@ class EvDomain(Domain):
                 X = v0.name[:-6]
                 self.ev(st, Ev('foreach', n, name=q, obj=X, val=clo), fr)
                 return [(clo, [Sym(X + '.front')])]
+            if isinstance(v0, Sym) and v0.name.endswith('.begin') and len(args) == 3 and (args[2].type or '').replace('const ', '').startswith('std::default_delete'):
+                # std::for_each(first, last, std::default_delete<T>()): one representative element, deleted
+                X = v0.name[:-6]
+                self.ev(st, Ev('foreach', n, name=q, obj=X, val=None), fr)
+                self.ev(st, Ev('delete', n, val=Sym(X + '.front'), obj=X, name='std::default_delete'), fr)
         return []
 
     def after_closure(self, ex, n, clo, ret, st):
@@ -286,7 +291,7 @@ class EvDomain(Domain):
         if base in ('end', 'cend'): return Sym(f'{on}.end')
         if base in ('front',): return Sym(f'{on}.front')
         if base in ('back',): return Sym(f'{on}.back')
-        if base in ('get',) and (n.mclass or '').startswith(('std::unique_ptr', 'std::shared_ptr')):
+        if base in ('get', 'operator bool') and (n.mclass or '').startswith(('std::unique_ptr', 'std::shared_ptr')):
             if isinstance(ov, Ref): ov = ex.read(ov.loc, st, n)
             if ov is not None and not (isinstance(ov, Sym) and ov.name.startswith('field:')): return ov
         if base in ('get',) and on: return Sym(f'{on}.ptr')
@@ -343,6 +348,7 @@ def _flatten(path):
         elif k == 'decl':
             name, val = payload
             decls[name] = (val, node)
+            released.discard(name)          # a new variable of that name (another scope / iteration) owns what it is given
             d1 = Ev('decl', node, obj=name, val=val); d1.locks = frozenset(cur); out.append(d1)
             if last_guard_ev is not None and node is not None:
                 # `std::scoped_lock locker(m)` : remember which variable guards which mutex
@@ -361,7 +367,11 @@ def _flatten(path):
                     cur.discard(m)
                     e = Ev('release', None, obj=m)
             elif (ty or '').startswith('std::unique_ptr') and name in decls and name not in released and decls[name][0] is not None:
-                e = Ev('delete', decls[name][1], val=decls[name][0], obj=name, name='unique_ptr::~unique_ptr')
+                v0 = decls[name][0]
+                if (isinstance(v0, Lin) and v0.is_const() and v0.c == 0) or (isinstance(v0, int) and not isinstance(v0, bool) and v0 == 0):
+                    e = Ev('scope-dtor', None, obj=name, name=ty or '')        # an empty smart pointer deletes nothing
+                else:
+                    e = Ev('delete', decls[name][1], val=v0, obj=name, name='unique_ptr::~unique_ptr')
             else:
                 e = Ev('scope-dtor', None, obj=name, name=ty or '')
         elif k == 'write':
